@@ -69,6 +69,10 @@ Fixpoint map_insert (kt : ty) (m : list (val * val)) (k v : val) : list (val * v
 
 Section WithEnv.
   Variable env : senv.
+  (* fuel of every field loop: any number above the length of the top-level
+     input serves all nested loops too, because they run on suffixes of it
+     (decode_object passes S (length input)) *)
+  Variable fuel : nat.
 
   Section Loops.
     (* decodeType(t, b, p, maxdepth-1): slot type, input, slot's prior content *)
@@ -227,7 +231,7 @@ Section WithEnv.
       match prior with
       | VT fs0 h0 =>
           let seen0 := filter (fun i => negb (memN i (required_ids sd))) pool_bits in
-          match dec_fields (S (length bs)) sd bs fs0 seen0 [] with
+          match dec_fields fuel sd bs fs0 seen0 [] with
           | DOk (cur, seen, unk) r =>
               match find (fun i => negb (memN i seen)) (required_ids sd) with
               | Some missing => DErr (ERequired missing)
@@ -274,7 +278,7 @@ Section WithEnv.
     end.
 
   (* reflect.Decode: returns the new destination and the number of bytes consumed *)
-  Definition decode_object (sid : N) (bs : list N) (dst : val) : dres (val * N) :=
+  Definition decode_object_f (sid : N) (bs : list N) (dst : val) : dres (val * N) :=
     match lookup_sd env sid with
     | Some sd =>
         match decode_struct (N.to_nat maxDepthLimit) sd bs dst with
@@ -284,3 +288,6 @@ Section WithEnv.
     | None => DErr EInternal
     end.
 End WithEnv.
+
+Definition decode_object (env : senv) (pool_bits : list N) (sid : N) (bs : list N) (dst : val) : dres (val * N) :=
+  decode_object_f env (S (length bs)) pool_bits sid bs dst.
